@@ -195,7 +195,12 @@ def _build(det, prefix, flags, symbolic=True, values=None):
         except Exception:  # noqa: BLE001
             sc = Scene()
         d._scene = sc
-        d._data = xr.DataTree.from_dict({"/stats": xr.Dataset({"mean": ("t", [1.0, 2.0])})})
+        # processed data as models leave it: a group with variables, a parent holding only shared coordinates with the variables
+        # on its child, and a still-empty leaf group
+        d._data = xr.DataTree.from_dict({"/stats": xr.Dataset({"mean": ("t", [1.0, 2.0])}),
+                                         "/statistics": xr.Dataset(coords={"time": [0.5, 1.5]}),
+                                         "/statistics/pixel": xr.Dataset({"var": ("time", [3.0, 4.0])}),
+                                         "/pending": xr.Dataset()})
     return d, vals
 
 
